@@ -321,7 +321,7 @@ def translate_rotation_matrix():
     f = find_func(ast.parse(src), None, 'rotation_matrix')
     body = [st for st in f.body if not (isinstance(st, ast.Expr) and isinstance(st.value, ast.Constant))]
     want = ['axis = axis / np.sqrt(np.dot(axis, axis))', 'a = np.cos(theta / 2)', 'b, c, d = -axis * np.sin(theta / 2)']
-    got = [ast.unparse(st) for st in body[:-1]]
+    got = [ast.unparse(st) for st in body[:3]]
     if got != want:
         raise TranslationError('rotation_matrix preamble changed: %r' % got)
     ret = body[-1]
@@ -330,35 +330,68 @@ def translate_rotation_matrix():
     mat = ret.value.args[0]
     if not (isinstance(mat, ast.List) and len(mat.elts) == 3 and all(isinstance(r, ast.List) and len(r.elts) == 3 for r in mat.elts)):
         raise TranslationError('rotation_matrix: expected a 3x3 literal')
+    env = set()
+    assigns = []
 
     def atom(e):
-        if isinstance(e, ast.Name) and e.id in ('a', 'b', 'c', 'd'):
+        if isinstance(e, ast.Name) and e.id in ('a', 'b', 'c', 'd') and e.id not in env:
             return e.id
         return None
-    ex = Expr(atom, set())
+    # optional straight-line temporaries between the preamble and the return
+    for st in body[3:-1]:
+        if not isinstance(st, ast.Assign) or len(st.targets) != 1:
+            raise TranslationError('rotation_matrix: unsupported statement ' + ast.unparse(st))
+        tgt, val = st.targets[0], st.value
+        if isinstance(tgt, ast.Name):
+            pairs = [(tgt, val)]
+        elif isinstance(tgt, ast.Tuple) and isinstance(val, ast.Tuple) and len(tgt.elts) == len(val.elts) \
+                and all(isinstance(x, ast.Name) for x in tgt.elts):
+            pairs = list(zip(tgt.elts, val.elts))
+        else:
+            raise TranslationError('rotation_matrix: unsupported assignment ' + ast.unparse(st))
+        texts = [(t.id, Expr(atom, env).tr(v)) for t, v in pairs]   # right-hand sides see the old environment
+        for nm, tx in texts:
+            if nm in ('a', 'b', 'c', 'd'):
+                raise TranslationError('rotation_matrix: rebinding of %s' % nm)
+            assigns.append((nm, tx))
+            env.add(nm)
+    ex = Expr(atom, env)
     rows = ['[%s]' % '; '.join(ex.tr(x) for x in r.elts) for r in mat.elts]
     out = ['(* GENERATED by harness/translate.py from splipy/utils/__init__.py (rotation_matrix); do not edit *)',
            'From Coq Require Import ZArith List.', 'From SplipyModel Require Import Model.Num.', 'Import ListNotations.', '',
            '(* a = cos(theta/2); (b, c, d) = -unit_axis * sin(theta/2) *)',
-           'Definition rotmat {F : Type} `{Num F} (a b c d : F) : list (list F) :=\n  [%s].' % ';\n   '.join(rows)]
+           'Definition rotmat {F : Type} `{Num F} (a b c d : F) : list (list F) :=\n%s\n  [%s].' % (lets(assigns, len(assigns)), ';\n   '.join(rows))]
     return 'RotationMatrix.v', '\n'.join(out) + '\n'
 
 
 KERNELS = [translate_surface, translate_curve, translate_generic_quotient, translate_rotation_matrix]
 
 
+KERNEL_FILES = {'translate_surface': 'RatDerivSurface.v', 'translate_curve': 'RatDerivCurve.v',
+                'translate_generic_quotient': 'RatDerivGeneric.v', 'translate_rotation_matrix': 'RotationMatrix.v'}
+# which properties' proofs are about which regenerated kernel
+KERNEL_PROPERTIES = {'RatDerivSurface.v': ['C03'], 'RatDerivCurve.v': ['C03'], 'RatDerivGeneric.v': ['C03'],
+                     'RotationMatrix.v': ['C09', 'C13']}
+FALLBACK = os.path.join(VERIF, 'coq', 'fallback_gen')
+FAILED = {}   # file name -> error text (this run)
+
+
 def regenerate_all():
     """(Re)writes Gen/*.v only when the content changes (keeps make incremental).
-    A translation failure writes a file that does not compile, so the tie is reported broken."""
+    If a kernel can no longer be translated, the tie for it is BROKEN: the failure is recorded in FAILED (and
+    reported by the proof layer), and the committed reference copy (coq/fallback_gen) is used instead so that the
+    executable model still builds and the search for a failing input can run."""
     os.makedirs(GEN, exist_ok=True)
     written = []
+    FAILED.clear()
     for k in KERNELS:
+        name = KERNEL_FILES[k.__name__]
         try:
             name, text = k()
         except TranslationError as e:
-            name = {'translate_surface': 'RatDerivSurface.v', 'translate_curve': 'RatDerivCurve.v',
-                    'translate_generic_quotient': 'RatDerivGeneric.v', 'translate_rotation_matrix': 'RotationMatrix.v'}.get(k.__name__, k.__name__ + '.v')
-            text = '(* TRANSLATION FAILED: %s *)\nTranslation_failed_see_comment.\n' % str(e).replace('*)', '* )')
+            FAILED[name] = str(e)
+            fb = os.path.join(FALLBACK, name)
+            text = '(* TRANSLATION FAILED (%s); reference copy used *)\n' % str(e).replace('*)', '* )').replace('(*', '( *') + open(fb).read()
         path = os.path.join(GEN, name)
         old = open(path).read() if os.path.exists(path) else None
         if old != text:
